@@ -201,6 +201,8 @@ def _table(q: str, body: List[str], comment: str) -> Dict[str, Any]:
     cur: List[str] = []
     for ln in body:
         t = ln.strip()
+        if not t and not cur:
+            continue                     # an empty line between entries (the whole body of a table without columns)
         if t.startswith('--') and not cur:
             pend.append(t[2:].strip())
             continue
